@@ -28,6 +28,35 @@ macro_rules! harnesses {
     };
 }
 
+/// Same, for harnesses whose grammar calls `Recursive::define` (which captures `Location::caller()`, reported by
+/// Kani as an unsupported construct): the caller location is stubbed by a fixed one. Registers as `REG2`.
+#[macro_export]
+macro_rules! harnesses_stub_caller {
+    ($( $name:ident [$unwind:expr] = $body:ident ;)*) => {
+        $(
+            #[cfg(kani)]
+            #[kani::proof]
+            #[kani::unwind($unwind)]
+            #[kani::stub(core::panic::Location::caller, $crate::fake_caller)]
+            pub fn $name() {
+                $body(&mut $crate::sym::KaniSrc)
+            }
+        )*
+        pub const REG2: &[(&str, $crate::Body)] = &[
+            $( (stringify!($name), $body::<$crate::sym::QueueSrc> as $crate::Body), )*
+        ];
+    };
+}
+
+/// Stand-in for `core::panic::Location::caller` (only ever used to build the "defined twice" panic message).
+#[cfg(kani)]
+pub fn fake_caller<'a>() -> &'static core::panic::Location<'a> {
+    static FAKE: (&str, u32, u32) = ("harness\0", 1, 1);
+    // SAFETY: never dereferenced on any path the harnesses take (the location is stored, and read only when
+    // building the panic message of a second `define`); size and alignment match `Location`
+    unsafe { core::mem::transmute::<&(&str, u32, u32), &core::panic::Location<'a>>(&FAKE) }
+}
+
 /// The shared C03 result contract, asserted by every harness on the real `ParseResult`.
 pub fn contract<T, E>(r: &chumsky::ParseResult<T, E>) {
     check!("C03:contract:no-output-implies-error", r.has_output() || r.has_errors());
